@@ -25,6 +25,8 @@ type AKECase struct {
 	Seed    int   `json:"seed,omitempty"`
 	Reps    int   `json:"reps,omitempty"`  // the trigger is repeated (reps+1 times) before anything is delivered: a user typing several lines
 	Other   int   `json:"other,omitempty"` // 1: the further triggers come from the other party (both sides start, one of them a little later)
+	Frag    int   `json:"frag,omitempty"`  // fragment size of both parties (0: none): every handshake message travels in pieces
+	Tags    bool  `json:"tags,omitempty"`  // both clients have persisted instance tags and set them before anything happens
 }
 
 func verPol(v int) int {
@@ -53,8 +55,17 @@ func runAKE(c *AKECase) (*sim.Outcome, []int, []int) {
 		extra = sim.PolRequire
 	}
 	cfg := SessCfg{SeedA: 1500 + 2*uint64(c.Seed), SeedB: 1601 + 2*uint64(c.Seed), KeyA: 0, KeyB: 3}
+	cfg.FragA, cfg.FragB = c.Frag, c.Frag
 	s := newSess(&SessScript{Cfg: cfg, PolA: verPol(c.VA) | extra, PolB: verPol(c.VB) | extra}, o)
 	w := s.W
+	if c.Tags {
+		w.P[0].C.InitializeInstanceTag(0x0a0a0a01)
+		w.P[1].C.InitializeInstanceTag(0x0b0b0b02)
+		o.Class("instance-tags-persisted")
+	}
+	if c.Frag > 0 {
+		o.Class("handshake-in-pieces")
+	}
 	pre := c.Pre % 5
 	if c.Trigger%5 == 4 {
 		pre = 1
@@ -178,8 +189,8 @@ func runAKE(c *AKECase) (*sim.Outcome, []int, []int) {
 	collision := false
 	var delivered [2][]string
 	for steps := 0; w.Pending() > 0; steps++ {
-		if steps >= 200 {
-			return o.Fail("C07/no-quiescence", "no quiescence after 200 deliveries"), taken, open
+		if steps >= 200 && c.Frag == 0 || steps >= 20000 {
+			return o.Fail("C07/no-quiescence", "no quiescence after %d deliveries", steps), taken, open
 		}
 		d := 0
 		both := len(w.Q[0]) > 0 && len(w.Q[1]) > 0
@@ -268,7 +279,7 @@ func runAKE(c *AKECase) (*sim.Outcome, []int, []int) {
 		t := s.Text(d, 6, 0)
 		s.Send(d, t)
 		var got []byte
-		for n := 0; n < 20 && w.Pending() > 0; n++ {
+		for n := 0; n < 20000 && w.Pending() > 0; n++ {
 			dir := d
 			if len(w.Q[dir]) == 0 {
 				dir = 1 - d
@@ -373,6 +384,34 @@ func TestProp_C07_Schedules(t *testing.T) {
 			}
 		}
 	}
+	// every handshake message in pieces, between clients that have persisted their instance tags (a first piece is
+	// addressed to nobody in particular): the plain start patterns, a handful of schedules each
+	for _, vp := range pairs[:mixedFrom] {
+		for trig := 0; trig < 4; trig++ {
+			for who := 0; who < 2; who++ { // (one starter: crossing commits, the open finding, are recognised on whole messages only)
+				for _, frag := range []int{70, 300} {
+					idx++
+					if idx%sn != si {
+						continue
+					}
+					stack := [][]int{nil}
+					for n := 0; len(stack) > 0 && n < 6; n++ {
+						prefix := stack[len(stack)-1]
+						stack = stack[:len(stack)-1]
+						c := &AKECase{VA: vp[0], VB: vp[1], Trigger: trig, Who: who, Frag: frag, Tags: true, Choices: prefix}
+						_, taken, open := runAKE(c)
+						c.Choices = taken
+						sim.Judge(t, "C07schedules", c)
+						for _, pos := range open {
+							if pos%7 == 3 {
+								stack = append(stack, append(append([]int{}, taken[:pos]...), 1))
+							}
+						}
+					}
+				}
+			}
+		}
+	}
 	// started by a tag another implementation wrote: every form x either receiver x version policies x every schedule
 	for _, vp := range pairs[:mixedFrom] {
 		for form := 0; form < 8; form++ {
@@ -406,6 +445,11 @@ func TestProp_C07_Random(t *testing.T) {
 		c := &AKECase{VA: vp[0], VB: vp[1], Trigger: rapid.IntRange(0, 3).Draw(rt, "trigger"), Who: rapid.IntRange(0, 2).Draw(rt, "who"), Pre: rapid.IntRange(0, 4).Draw(rt, "pre"), Other: rapid.IntRange(0, 1).Draw(rt, "other"), Reps: 0, // further triggers while the exchange is under way are "further user action", which the statement excludes (see DESIGN.md §10)
 			Choices: rapid.SliceOfN(rapid.IntRange(0, 2), 0, 20).Draw(rt, "choices"), Seed: rapid.IntRange(0, 50).Draw(rt, "seed")}
 		c.Reps = c.Other // (one further trigger, by the other side, where the choice vector says 2)
+		c.Frag = rapid.SampledFrom([]int{0, 0, 0, 70, 300}).Draw(rt, "frag")
+		c.Tags = rapid.Bool().Draw(rt, "tags")
+		if c.Who == 2 || c.Other == 1 {
+			c.Frag = 0 // (crossing commits, the open finding, are recognised on whole messages only)
+		}
 		sim.Judge(rt, "C07random", c)
 	})
 }
